@@ -211,6 +211,41 @@ def st_tree():
     return sim
 
 
+def st_linetree():
+    """line-tree collision search with direct gravity: the tree exists for the collision search only; two particles are about to touch"""
+    sim = rebound.Simulation()
+    sim.configure_box(20.)
+    sim.gravity = "basic"
+    sim.collision = "linetree"
+    sim.collision_resolve = "hardsphere"
+    sim.integrator = "leapfrog"
+    sim.dt = 0.01
+    for k in range(5):
+        sim.add(m=1e-3, r=0.01, x=-3 + 1.1 * k, y=0.3 * k - 1, z=0.1 * k, vx=0.01 * k)
+    sim.add(m=1e-3, r=0.02, x=4.0, y=3.0, z=0.0, vx=-1.0)
+    sim.add(m=1e-3, r=0.02, x=3.9, y=3.0, z=0.0, vx=1.0)       # closing at 2 per unit time, gap 0.06: touch during the 3rd step from here
+    sim.steps(1)
+    return sim
+
+
+def st_treecoll():
+    """tree collision search with direct gravity, a collision pending"""
+    sim = st_linetree.__wrapped__() if hasattr(st_linetree, "__wrapped__") else None
+    sim = rebound.Simulation()
+    sim.configure_box(20.)
+    sim.gravity = "basic"
+    sim.collision = "tree"
+    sim.collision_resolve = "hardsphere"
+    sim.integrator = "leapfrog"
+    sim.dt = 0.01
+    for k in range(5):
+        sim.add(m=1e-3, r=0.01, x=-3 + 1.1 * k, y=0.3 * k - 1, z=0.1 * k, vx=0.01 * k)
+    sim.add(m=1e-3, r=0.02, x=4.0, y=3.0, z=0.0, vx=-1.0)
+    sim.add(m=1e-3, r=0.02, x=3.9, y=3.0, z=0.0, vx=1.0)
+    sim.steps(1)
+    return sim
+
+
 def st_collided():
     sim = rebound.Simulation()
     sim.integrator = "ias15"
@@ -256,7 +291,7 @@ def st_display():
 STATES = [(f.__name__[3:], f) for f in [
     st_whfast_unsync, st_whfast_corr, st_whfast_dh, st_whfast_kernel, st_ias15, st_ias15_opts, st_mercurius,
     st_mercurius_unsync, st_trace, st_trace_peri, st_janus, st_saba, st_saba_keep, st_eos, st_bs, st_leapfrog,
-    st_sei, st_variational, st_variational2, st_megno, st_tree, st_collided, st_testparticles, st_rejected_bs,
+    st_sei, st_variational, st_variational2, st_megno, st_tree, st_linetree, st_treecoll, st_collided, st_testparticles, st_rejected_bs,
     st_display]]
 
 
